@@ -116,8 +116,8 @@ func batch(t *testing.T) {
 		for {
 			time.Sleep(5 * time.Second)
 			st := curStart.Load()
-			if st != 0 && time.Now().UnixNano()-st > int64(240*time.Second) {
-				fmt.Fprintf(os.Stderr, "WATCHDOG: plan %d has been running for more than 240 s of wall time\n", cur.Load())
+			if st != 0 && time.Now().UnixNano()-st > int64(120*time.Second) {
+				fmt.Fprintf(os.Stderr, "WATCHDOG: plan %d has been running for more than 120 s of wall time\n", cur.Load())
 				os.Exit(3)
 			}
 		}
